@@ -46,4 +46,12 @@ BENIGN = [
     dict(name="benign:checked-arithmetic-idiom", props=["C01", "C06", "C07"], edits=[
         (LIB, "                    i.set(i.get().saturating_add(1));", "                    i.set(i.get().checked_add(1).unwrap_or(i64::MAX));"),
     ]),
+    dict(name="benign:rename-locals-and-parameters", props=ALL, renames=[
+        ("col_widths", "cws"), ("vert_row", "stacked"), ("tot_width", "total"), ("nextpos", "np"), ("min_size", "least"),
+        ("num_cols", "ncols"), ("prefix_width", "pw"), ("inner_min", "imin"), ("sub_builder", "sbld"), ("remain", "leftover"),
+        ("to_copy", "ncopy"), ("lineleft", "room"), ("wpos", "wp"), ("last_cellno", "lastc"), ("vertical", "is_vert"),
+        ("height_zero", "hz"), ("overflow_hidden", "oh"), ("cellno", "cn"), ("prefix_width_max", "pwmax"),
+        ("prefix_width_min", "pwmin"), ("max_number", "maxn"), ("min_number", "minn"), ("num_items", "nitems"), ("sub_r", "subr"),
+        ("main_tag", "mtag"), ("wrap_tag", "wtag"), ("colno", "cno"), ("pushed_style", "pst"),
+    ]),
 ]
